@@ -92,6 +92,15 @@ CHECKS["C09"] = dict(
     note="The verbose tree is the ground truth (its own consistency is C02). Reported leaves are matched by custom message; leaves without a message match any FAIL record of the rule.",
     ref="DESIGN.md §6 P-C09")
 
+CHECKS["C07"] = dict(
+    technique="runtime monitoring: cross-configuration differential monitor with independent output parsers",
+    text="For random programs x documents the structured JSON report is the baseline and ~70 other configurations (structured yaml/sarif/junit, plain "
+         "single-line/json/yaml x 7 --show-summary selections x {-, -v, -p}, data on stdin, --payload plain and structured, run_checks and the FFI "
+         "function in verbose and report mode, incl. reports > 8 KiB) are parsed back by independent parsers (python json, PyYAML, xml.etree, "
+         "regex) and must agree on rule->status, file status and exit code; YAML==JSON as data, SARIF result count == failing checks, JUnit marks/counters.",
+    note="Console reporters show only what -S selects: containment there, equality for -S all. The Lambda handler itself cannot be linked; it is covered via run_checks with its argument pattern.",
+    ref="DESIGN.md §6 P-C07")
+
 PENDING = {}
 
 
